@@ -77,6 +77,18 @@ impl Game {
         self.move_history.push(chess_move);
     }
 
+    /// The moves recorded so far, oldest first.
+    #[cfg(feature = "verif")]
+    pub fn verif_move_history(&self) -> &[ChessMove] {
+        &self.move_history
+    }
+
+    /// The search context reused across this game's searches.
+    #[cfg(feature = "verif")]
+    pub fn verif_search_context_mut(&mut self) -> &mut SearchContext {
+        &mut self.search_context
+    }
+
     pub fn most_recent_move(&self) -> Option<ChessMove> {
         self.move_history.iter().last().cloned()
     }
